@@ -1839,6 +1839,28 @@ func c10aParenArms(c *Ctx) {
 	if fn == nil {
 		return
 	}
+	// the same for the comma: every comma closes the argument that is being collected — inside
+	// nested parentheses too (the pieces between two commas are joined with one blank, the
+	// arguments with ", ": a comma that is kept as a piece comes out as " , "). The join of the
+	// pieces inside the loop stands under the kind of the current token and nothing else.
+	{
+		nJoin := 0
+		for _, ci := range callsIn(fn) {
+			if calleeName(ci) != "strings.Join" || loopHeaders(fn)[ci.Block()] == nil {
+				continue
+			}
+			nJoin++
+			var extra []string
+			for _, l := range c.mustLits(fn, ci.Block()) {
+				if strings.Contains(l, `.Type == "`) {
+					continue
+				}
+				extra = append(extra, l)
+			}
+			c.Check(len(extra) == 0, fmt.Sprintf("arg-loop/every-comma-closes-the-argument#%d", nJoin), c.W.Pos(ci.Pos()), "the argument is closed under the kind of the current token alone", fmt.Sprintf("the argument is closed at a comma only under the further condition(s) %v: a comma for which they fail is kept as a piece of the argument and comes out with blanks around it", prettyAll(extra)))
+		}
+		c.Check(nJoin >= 1, "arg-loop/every-comma-closes-the-argument", c.W.FuncPos(fn), fmt.Sprintf("%d joins of argument pieces inside the loop", nJoin), "cannot find where the argument loop closes an argument at a comma")
+	}
 	n := 0
 	instrs(fn, func(in ssa.Instruction) {
 		bo, ok := in.(*ssa.BinOp)
